@@ -633,6 +633,55 @@ pub fn run_property(p: &Property, env: &RunEnv, only: Option<&str>) -> i32 {
         "violations": violations,
     });
     let only_suffix = only.is_some();
+    // A property whose checks live in two binaries (default build + token-factory build): the second
+    // binary merges its part into the evidence the first one has just written for the same run.
+    let mut evidence = evidence;
+    if std::env::var("WWCHECK_EVIDENCE_MERGE").is_ok() {
+        let path = format!("{}/evidence/{}.json", VERIF_DIR, p.id);
+        if let Some(old) = std::fs::read_to_string(&path).ok().and_then(|t| serde_json::from_str::<Value>(&t).ok()) {
+            if old["tier"] == evidence["tier"] && old["seed"] == evidence["seed"] {
+                let num = |v: &Value| v.as_u64().unwrap_or(0);
+                let oc = &old["coverage"];
+                let c = evidence["coverage"].clone();
+                let mut per: Vec<Value> = oc["per_check"].as_array().cloned().unwrap_or_default();
+                per.extend(c["per_check"].as_array().cloned().unwrap_or_default());
+                let mut smp: Vec<Value> = oc["samples"].as_array().cloned().unwrap_or_default();
+                smp.extend(c["samples"].as_array().cloned().unwrap_or_default());
+                let mut known: BTreeMap<String, u64> = BTreeMap::new();
+                for src in [&oc["known_finding_hits"], &c["known_finding_hits"]] {
+                    if let Some(m) = src.as_object() {
+                        for (k, v) in m {
+                            *known.entry(k.clone()).or_insert(0) += num(v);
+                        }
+                    }
+                }
+                let mut assumptions: Vec<Value> = old["assumptions"].as_array().cloned().unwrap_or_default();
+                for a in evidence["assumptions"].as_array().cloned().unwrap_or_default() {
+                    if !assumptions.contains(&a) {
+                        assumptions.push(a);
+                    }
+                }
+                evidence = json!({
+                    "property_id": p.id,
+                    "tier": env.tier.as_str(),
+                    "seed": env.seed,
+                    "level": "exploration",
+                    "coverage": {
+                        "evaluations": num(&oc["evaluations"]) + num(&c["evaluations"]),
+                        "distinct_nontrivial": num(&oc["distinct_nontrivial"]) + num(&c["distinct_nontrivial"]),
+                        "rule": format!("{} || {}", oc["rule"].as_str().unwrap_or(""), c["rule"].as_str().unwrap_or("")),
+                        "samples": smp,
+                        "per_check": per,
+                        "known_finding_hits": known,
+                        "threads": env.threads,
+                    },
+                    "assumptions": assumptions,
+                    "wall_s": old["wall_s"].as_f64().unwrap_or(0.0) + wall,
+                    "violations": num(&old["violations"]) + violations as u64,
+                });
+            }
+        }
+    }
     if !only_suffix {
         let dir = format!("{}/evidence", VERIF_DIR);
         let _ = std::fs::create_dir_all(&dir);
@@ -666,8 +715,9 @@ pub fn run_property(p: &Property, env: &RunEnv, only: Option<&str>) -> i32 {
     }
     if code == 0 {
         println!(
-            "OK property={} tier={} seed={} evaluations={} distinct_nontrivial={} wall_s={:.1}",
+            "OK property={}{} tier={} seed={} evaluations={} distinct_nontrivial={} wall_s={:.1}",
             p.id,
+            if std::env::var("WWCHECK_EVIDENCE_MERGE").is_ok() { " part=token-factory-build" } else { "" },
             env.tier.as_str(),
             env.seed,
             evaluations,
